@@ -140,7 +140,7 @@ type c14Case struct {
 
 func c14Depth(tier string) int {
 	if tier == "thorough" {
-		return 5
+		return 6
 	}
 	return 4
 }
@@ -150,7 +150,7 @@ func init() {
 	mc.Register(&mc.Check{
 		ID:    "C14",
 		Level: "model_checking",
-		Rule: fmt.Sprintf("engine S over option lists: every list of <=4 (thorough <=5) options over a %d-option alphabet (WithPalette of two palettes incl. invalid, gradient-looking and transparent entries; WithColorAt for indices {0,1,63} x 7 colour values: opaque RGBA, translucent NRGBA, Gray, RGBA64, a custom color.Color reporting r>a, invalid premultiplied RGBA, gradient-looking RGBA) x 4 graphics (palette indices in registers, blends with palette operands, paths filled from the initial colour registers with number registers preset so that a reinterpretation as gradient would be valid, suggested palette in the metadata) x sinks {recorder, Renderer over a recording rasteriser}. ", no) +
+		Rule: fmt.Sprintf("engine S over option lists: every list of <=4 (thorough <=6) options over a %d-option alphabet (WithPalette of two palettes incl. invalid, gradient-looking and transparent entries; WithColorAt for indices {0,1,63} x 7 colour values: opaque RGBA, translucent NRGBA, Gray, RGBA64, a custom color.Color reporting r>a, invalid premultiplied RGBA, gradient-looking RGBA) x 4 graphics (palette indices in registers, blends with palette operands, paths filled from the initial colour registers with number registers preset so that a reinterpretation as gradient would be valid, suggested palette in the metadata) x sinks {recorder, Renderer over a recording rasteriser}. ", no) +
 			"Reference: suggested palette, options applied in order (colour model conversion to premultiplied RGBA), then every entry that is not a valid premultiplied colour replaced by opaque black; the Reset palette and every paint must equal the reference VM's; bytes, palette arrays and option colours unmodified. " +
 			"states = option lists executed, transitions = options applied; non-trivial = list containing an invalid or gradient-looking user colour",
 		Assumptions: []string{"WithColorAt with an index outside 0..63 is a caller error outside the quantifier"},
